@@ -28,6 +28,12 @@ pub(super) fn run_write(invocation: ToolInvocation, config: &BuiltinToolConfig) 
         Err(err) => return ToolOutput::failure(vec![err]),
     };
 
+    if path.file_name().is_none() {
+        return ToolOutput::failure(vec![
+            "write failed: path does not name a file".to_string()
+        ]);
+    }
+
     let create = args.create.unwrap_or(true);
     let append = args.append.unwrap_or(false);
     let atomic = args.atomic.unwrap_or(true);
@@ -54,10 +60,12 @@ pub(super) fn run_write(invocation: ToolInvocation, config: &BuiltinToolConfig) 
         }
         if path.exists() {
             if let Err(err) = fs::remove_file(&path) {
+                let _ = fs::remove_file(&tmp_path);
                 return ToolOutput::failure(vec![format!("write failed: {err}")]);
             }
         }
         if let Err(err) = fs::rename(&tmp_path, &path) {
+            let _ = fs::remove_file(&tmp_path);
             return ToolOutput::failure(vec![format!("write failed: {err}")]);
         }
         args.content.len()
